@@ -41,6 +41,8 @@ def check(ctx):
     ctx.attempt(config_separators)
     ctx.attempt(decompiled_text_is_typed)
     ctx.attempt(word_dispatch)
+    from .c14 import parse_not_gated          # config_tracts() / a new .config must take effect on the next parse_tracts()
+    ctx.attempt(parse_not_gated, rule='LOCK')
     ctx.attempt(_direction_writer)
     ctx.attempt(config_setters_keep_false)
     from .layouts import layout_classes      # the config reader validates `layout.<name>` against this table
